@@ -267,6 +267,10 @@ func verifScripted(b bpv7.Bundle, mtu uint64, script []string, l int) string {
 					var reply msgs.Message
 					if it == "r" {
 						reply = msgs.NewTransferRefusalMessage(msgs.RefusalUnknown, s.TransferId)
+					} else if strings.HasPrefix(it, "r") {
+						// r<code>: a refusal with that reason code (whatever the reason, a refusal is a failed transfer)
+						n, _ := strconv.ParseUint(it[1:], 10, 8)
+						reply = msgs.NewTransferRefusalMessage(msgs.TransferRefusalCode(n), s.TransferId)
 					} else if strings.HasPrefix(it, "a") {
 						n, _ := strconv.ParseUint(it[1:], 10, 64)
 						reply = msgs.NewDataAcknowledgementMessage(s.Flags, s.TransferId, n)
@@ -663,6 +667,10 @@ func TestVerifC11(t *testing.T) {
 	for k := 0; k < nseg; k++ { // refuse after k good acks
 		sc := append(append([]string{}, good[:k]...), "r")
 		emit(verifScripted(b, uint64(mtu), sc, l))
+		for code := 0; code <= 6; code++ { // every reason code of RFC 9174
+			sc := append(append([]string{}, good[:k]...), "r"+strconv.Itoa(code))
+			emit(verifScripted(b, uint64(mtu), sc, l))
+		}
 	}
 	// wrong final ack followed by refusal; short acks then the right one
 	sc := append(append([]string{}, good[:nseg-1]...), "a"+strconv.Itoa(l-1))
